@@ -1,0 +1,8 @@
+//go:build !verif
+
+package ws
+
+import "github.com/gorilla/websocket"
+
+// verifUpgraded is a verification hook; it does nothing in normal builds.
+func verifUpgraded(*websocket.Conn) {}
